@@ -792,6 +792,9 @@ def fold_direction(ctx, py: PyRepo):
 def run(ctx):
     py = PyRepo.get()
     glue_polarity(ctx, py)
+    # the stages are typed against the documented schemas of the lemmas they call: those schemas must be what the lemmas prove
+    from .c10 import lemma_schemas
+    lemma_schemas(ctx, py)
     conj_form_contract(ctx, py)
     resolution_contract(ctx, py)
     form_stage_contract(ctx, py, 'propag_neg')
@@ -804,6 +807,7 @@ def run(ctx):
     ctx.floor('fold-direction', 1)
     ctx.floor('glue-polarity', 4)
     ctx.floor('stage-contract', 28)
+    ctx.floor('lemma-schema', 75)
     ctx.floor('literal-encoding', 2)
     fn = py.method('Tautology', 'resolution_algorithm')
     where = py.where('tautology', fn)
